@@ -96,4 +96,39 @@ class Engine(DbEngine):
             if sub.random() < 0.4:
                 g.ops.append((sub.choice(['reopen', 'rebuild']),))
             out.append(('colon-identifier', g.render()))
+        # deletion requests whose own time is the largest a u64 holds (and the one below): the marker time sits at the end of
+        # the range, where `time + 1` and `time - 1` are not what they are elsewhere; later stores at the address, at every
+        # corner of the time range, must all be refused, on the neighbour address accepted
+        for i in range(8 if tier == 'quick' else 100):
+            sub = random.Random(rng.getrandbits(64))
+            g = HistGen(sub, {'new': 2, 'addr': 1}, sub.choice([0, 2])).run()
+            a = sub.choice(AUTHORS)
+            kind = sub.choice([30023, 10002, 0, 3, 39999])
+            d = b'' if kind < 30000 else sub.choice([b'x', b'', b'L' * 182])
+            other = b'other'
+            tmax = sub.choice([C.U64, C.U64, C.U64 - 1])
+            tg = [[b'd', d]] if kind >= 30000 else []
+            first = g.new_event(kind=kind, pk=a, created=sub.choice([100, tmax, C.U64 - 1]), tags=tg)
+            g.op_store(first)
+            g.note_addr(kind, a, d)
+            tags = [[b'a', addr_str(kind, a, d)]]
+            if sub.random() < 0.5:
+                tags.append([b'e', first['id'].hex().encode()])
+            req = g.new_event(kind=5, pk=a, created=tmax, tags=tags)
+            g.op_store(req)
+            for t in sub.sample([0, 1, 100, C.U64 - 2, C.U64 - 1, C.U64], 4):
+                e = g.new_event(kind=kind, pk=a, created=t, tags=tg)
+                e['content'] = b'after the marker at %d' % t
+                e['id'] = fake_id(e)
+                g.op_store(e)
+            if kind >= 30000:
+                e = g.new_event(kind=kind, pk=a, created=sub.choice([0, 100, C.U64]), tags=[[b'd', other]])
+                g.op_store(e)
+                g.note_addr(kind, a, other)
+            g.op_store(first)                    # the covered event offered again
+            if sub.random() < 0.4:
+                g.ops.append((sub.choice(['reopen', 'rebuild']),))
+                e = g.new_event(kind=kind, pk=a, created=sub.choice([0, C.U64 - 1, C.U64]), tags=tg)
+                g.op_store(e)
+            out.append(('marker-at-max', g.render()))
         return out
